@@ -14,6 +14,19 @@ type Alarm struct {
 // Timer is kept as an alias so the scheduler's bookkeeping reads naturally.
 type Timer = Alarm
 
+// Never is the instant of an alarm that does not go off (a duration so long that now+d
+// overflows, e.g. the wait x/time/rate computes for a limiter whose rate is 0).
+const Never = int64(1<<63 - 1)
+
+// After returns the absolute instant d from now, saturating at Never.
+func After(d int64) int64 {
+	now := S.now
+	if d > 0 && now+d < now {
+		return Never
+	}
+	return now + d
+}
+
 // NewAlarm registers an alarm at absolute virtual time when.
 func NewAlarm(when int64, fire func()) *Alarm {
 	s := S
@@ -60,6 +73,9 @@ func (s *Sched) nextDeadline() int64 {
 			continue
 		}
 		live = append(live, a)
+		if a.When == Never {
+			continue // pending for ever: the clock never jumps there
+		}
 		if next < 0 || a.When < next {
 			next = a.When
 		}
